@@ -7,6 +7,7 @@ import (
 	"pgregory.net/rapid"
 	"verif/harness/asam"
 	"verif/harness/evid"
+	"verif/harness/iosm"
 )
 
 const ruleC07 = "generated pairs whose device side is decorated with content outside Netspoc's scope (unbound untagged ACLs/groups, also referencing groups shared with managed ACLs; interfaces unknown to the target with bound ACLs; routes of a family the target lacks; unmodelled lines; tagged objects still referenced by unmanaged ones); " +
@@ -25,6 +26,18 @@ func TestC07(t *testing.T) {
 				}
 			}
 			judge(rt, ev, oracleC07asa, c, func() any { return c })
+		})
+	})
+	t.Run("ios", func(t *testing.T) {
+		rapid.Check(t, func(rt *rapid.T) {
+			p := iosm.GenPair(rt, iosm.GenOpts{Decorate: true})
+			c := iosCase("C07", p)
+			for _, op := range p.Ops {
+				if strings.HasPrefix(op, "dec:") {
+					ev.Class("ios:" + op)
+				}
+			}
+			judge(rt, ev, oracleC07ios, c, func() any { return c })
 		})
 	})
 }
